@@ -136,7 +136,7 @@ def evaluate_map(case):
             else:
                 bits = format(d + radix, "b")
             case_c = {"graph": {"k": 1, "rows": rows, "start": start}, "bits": bits, "table": table, "fast": fast,
-                      "vt": 0}
+                      "vt": 0, "table_dtype": ["int64", "float64", "int8"][(case["perm"] + case["pattern"]) % 3]}
             strand, _ = coding.run_encode(case_c)
             if isinstance(strand, (Raised,)) or strand == "BUDGET" or not strand:
                 return bad("encode failed for digit %d (perm %r, pattern %s, fast=%s): %r"
